@@ -48,6 +48,11 @@ impl<const K: u8> Default for A<K> { fn default() -> Self { A(40 + K) } }
 /// a Copy flavour of the same thing (for Clone + Copy and unions)
 #[derive(Copy)]
 pub struct C<const K: u8>(pub u8);
+/// a field type that implements none of the comparison / hashing / cloning traits (only `Debug`, for the noise trait):
+/// legal exactly where the field is ignored or handled by a custom method
+pub struct Nt(pub u8);
+impl Val for Nt { fn v(&self) -> u8 { self.0 } fn k(&self) -> u8 { 9 } }
+impl fmt::Debug for Nt { fn fmt(&self, f: &mut fmt::Formatter<'_>) -> fmt::Result { write!(f, "Nt<{}>", self.0) } }
 impl<const K: u8> Val for C<K> { fn v(&self) -> u8 { self.0 } fn k(&self) -> u8 { K } }
 impl<const K: u8> Clone for C<K> { fn clone(&self) -> Self { log(format!("clone C{} {}", K, self.0)); C(self.0) } }
 impl<const K: u8> PartialEq for C<K> { fn eq(&self, o: &Self) -> bool { self.0 == o.0 } }
@@ -119,6 +124,7 @@ impl Out {
 pub trait Show { fn sv(&self) -> String; }
 impl<const K: u8> Show for A<K> { fn sv(&self) -> String { format!("A{}:{}", K, self.0) } }
 impl<const K: u8> Show for C<K> { fn sv(&self) -> String { format!("C{}:{}", K, self.0) } }
+impl Show for Nt { fn sv(&self) -> String { format!("A9:{}", self.0) } }
 impl<const J: u8> Show for B<J> { fn sv(&self) -> String { format!("B{}:{}", J, self.0) } }
 macro_rules! show_debug { ($($t:ty),*) => { $(impl Show for $t { fn sv(&self) -> String { format!("{:?}", self) } })* } }
 show_debug!(bool, char, u8, u16, u32, u64, i8, i16, i32, i64, i128, usize, isize, f32, f64, (), String, &'static str,
